@@ -90,7 +90,7 @@ fn items_of(v: &Value) -> Vec<i64> {
     v.as_array().map(|a| a.iter().map(item_of).collect()).unwrap_or_default()
 }
 
-const STEP_TIMEOUT: Duration = Duration::from_secs(10);
+const STEP_TIMEOUT: Duration = Duration::from_secs(4);
 const LONG: Duration = Duration::from_secs(3600);
 
 struct Mismatch {
@@ -469,8 +469,10 @@ fn main() {
     let sample_every: usize = std::env::var("VH_SAMPLE_EVERY").ok().and_then(|s| s.parse().ok()).unwrap_or(200);
     let mut traces_out = std::io::BufWriter::new(std::fs::File::create(format!("{}.traces", &args[3])).unwrap());
     let mut n_div_written = 0usize;
+    let mut n_hangs = 0usize;
     vh_common::for_each_case(&args[2], |ln, case| {
-        if ln % nshards != shard {
+        if ln % nshards != shard || n_hangs >= 2 {
+            // (after two hangs the shard stops: every further one would cost the watchdog time)
             return;
         }
         // quick tier: a seeded sample of the transitions (the thorough tier replays them all)
@@ -481,6 +483,9 @@ fn main() {
         let (mism, trace, atrace) = run_case(&cfg, case);
         let divergent = !mism.is_empty();
         let hang = mism.iter().any(|m| m.what.contains("(hang)"));
+        if hang {
+            n_hangs += 1;
+        }
         if (divergent && n_div_written < 300) || (rep.cases as usize) % sample_every == 1 {
             use std::io::Write;
             if divergent {
